@@ -815,7 +815,7 @@ def cfg_values(cfg):
     return sorted(set(cfg[4])) if cfg[4] else [4, 6, 8, 9, 12, 16, 18, 24, 36]
 
 
-def gen_piece(r, cfg, valid=True, nbars=None, meta_first=False):
+def gen_piece(r, cfg, valid=True, nbars=None, meta_first=False, single_sig=False):
     """tracks as relative lists + the bar grid; valid pieces satisfy the tokeniser's input constraints"""
     nt, lo, hi = cfg[0], cfg[1], cfg[2]
     steps, values = cfg_steps(cfg), cfg_values(cfg)
@@ -826,7 +826,7 @@ def gen_piece(r, cfg, valid=True, nbars=None, meta_first=False):
     W = 1920 if len(cfg) > 11 and cfg[11] == 480 else 96      # ticks of a whole note on the grid the piece is written on
     sig, t, metas, bounds = (4, 4), 0, [], []
     for b in range(nbars):
-        if r.random() < (0.5 if b == 0 else 0.3):
+        if (r.random() < (0.5 if b == 0 else 0.3)) if not single_sig else b == 0:     # single_sig: one signature, at tick 0
             cands = [s for s in TOK_SIGS if (W * s[0] // s[1]) % unit == 0] or [(4, 4)]
             sig = r.choice(cands)
             metas.append(TS(0, sig[0], sig[1], t))
@@ -989,7 +989,10 @@ def partition(r, n):
 
 def _gen_stateful(r):
     cfg = gen_cfg(r, valid_bins=True, hires=False)     # the bars come from sequences_split_bars, i.e. the library's PPQN
-    tracks = gen_piece(r, cfg, valid=True, nbars=r.randint(1, 5), meta_first=True)
+    single = r.random() < 0.3        # one (usually non-4/4) signature at tick 0: chunks cut with split carry none of their own
+    if single and not cfg[3]:
+        cfg = cfg[:3] + ([12, 24],) + cfg[4:]
+    tracks = gen_piece(r, cfg, valid=True, nbars=r.randint(3, 5) if single else r.randint(1, 5), meta_first=True, single_sig=single)
     if r.random() < 0.4:         # every track on MIDI channel 0 (as loaded from most files): tokenise re-channels them
         tracks = [[m[:1] + (0,) + m[2:] for m in ms] for ms in tracks]
     seed = r.randrange(1 << 30)
@@ -1280,6 +1283,14 @@ def gen_history(r, nsteps=None, two_sided=False):
             n = _dry_count(ops)
         except StopGen:
             break
+    if r.random() < 0.2 and n:
+        # quantise, move events in place on the absolute side (off the grid again), quantise with the same grid
+        i, steps = r.randrange(n), r.choice([[12], [8], [6, 4], [24, 12]])
+        ops.append(("OQuantise", i, steps))
+        ops.append(r.choice([("OCutoff", i, r.choice([6, 12, 24]), r.choice([5, 7, 1, 17])),
+                             ("OQnl", i, r.choice([[5, 7], [1], [5]]), 24, r.random() < 0.5)]))
+        ops.append(("OQuantise", i, steps))
+        ops.append(("OReadAbs", i))
     return ops
 
 
@@ -1626,6 +1637,9 @@ def gen_concat_repeat(r):
     if r.random() < 0.15:      # an unclosed note between two single rests, then a proper note
         p_, q_ = r.sample([60, 61, 62], 2)
         motif = [WT(0, r.choice([12, 24])), ON(0, p_, 90), WT(0, r.choice([12, 24])), ON(0, q_, 100), WT(0, 12), OFF(0, q_)]
+    if r.random() < 0.1:       # a section that starts with the end of a note and ends with the start of one, single rests
+        p_ = r.choice([60, 61])
+        motif = [OFF(0, p_), WT(0, r.choice([12, 24])), ON(0, p_, 90), WT(0, r.choice([12, 24]))]
     mode = r.choice(["new", "new", "prefix", "self"])
     ops = [("ONewRel", motif)]
     if mode == "self":
